@@ -1,6 +1,32 @@
-(* C15 - placeholder: theorems are added with Proofs/VmProofs.v *)
-From Xeh Require Import Model.Prelude Model.Vm.
+(* C15 - how a program is driven does not change what it does. *)
+From Xeh Require Import Model.Prelude Model.Bits Model.Cell Model.Vm Model.Words Proofs.VmDrive.
 
-Theorem C15_next_stopped : forall nf s, is_running s = false -> next nf s = ROk tt s.
-Proof. intros nf s H. unfold next. rewrite H. reflexivity. Qed.
-Check C15_next_stopped : forall nf s, is_running s = false -> next nf s = ROk tt s.
+(* recording is transparent: a step with the reverse log erased afterwards is the step of
+   the state with the log erased before - same result, same error, same state *)
+Theorem C15_recording_transparent : forall fo s,
+  res_map erase_log (fetch_and_run (native_fn fo) s) = fetch_and_run (native_fn fo) (erase_log s).
+Proof. exact recording_transparent. Qed.
+Check C15_recording_transparent : forall fo s,
+  res_map erase_log (fetch_and_run (native_fn fo) s) = fetch_and_run (native_fn fo) (erase_log s).
+
+Theorem C15_recording_transparent_run : forall fo fuel s,
+  option_map (res_map erase_log) (run (native_fn fo) fuel s) = run (native_fn fo) fuel (erase_log s).
+Proof. exact recording_transparent_run. Qed.
+Check C15_recording_transparent_run : forall fo fuel s,
+  option_map (res_map erase_log) (run (native_fn fo) fuel s) = run (native_fn fo) fuel (erase_log s).
+
+(* run is single stepping until the machine stops: n successful steps followed by a stopped
+   machine, or by a failing step, is exactly what run returns *)
+Theorem C15_run_is_stepping : forall nf n s sn fuel,
+  steps nf n s = Some sn -> n < fuel ->
+  run nf fuel s = (if is_running sn then run nf (fuel - n) sn else Some (ROk tt sn)).
+Proof. exact run_is_stepping. Qed.
+Check C15_run_is_stepping : forall nf n s sn fuel,
+  steps nf n s = Some sn -> n < fuel ->
+  run nf fuel s = (if is_running sn then run nf (fuel - n) sn else Some (ROk tt sn)).
+
+Theorem C15_next_is_step : forall nf s,
+  next nf s = (if is_running s then fetch_and_run nf s else ROk tt s).
+Proof. exact next_is_step. Qed.
+Check C15_next_is_step : forall nf s,
+  next nf s = (if is_running s then fetch_and_run nf s else ROk tt s).
